@@ -238,8 +238,10 @@ class CSSStyleSheet(cssutils.stylesheets.StyleSheet):
                             r._replaceNamespaceURI(rule.namespaceURI)
 
                 self._namespaces[rule.prefix] = rule.namespaceURI
+                return 2
 
-            return 2
+            # an ignored (malformed) @namespace rule does not end @import rules
+            return expected
 
         def variablesrule(expected, seq, token, tokenizer):
             # parse and consume tokens in any case
